@@ -566,8 +566,14 @@ class Builder:
             number=params.number, tp=EPRType.K
         )
 
+        # With a single communication qubit every pair arrives in that qubit (ID 0 on
+        # NV) and the block handles the pairs one after the other: give all pairs
+        # that one ID, as for a sequential request, instead of allocating a memory
+        # qubit per pair and asking for the pairs to be delivered into those.
+        assert self._hardware_config is not None
+        one_by_one = params.sequential or self._hardware_config.comm_qubit_count == 1
         qubit_futures = self._get_qubit_futures(
-            params.number, params.sequential, ent_results_array
+            params.number, one_by_one, ent_results_array
         )
         assert all(isinstance(q, Qubit) for q in qubit_futures)
 
